@@ -269,7 +269,10 @@ fn irr(rng: &mut Rng, ctx: &mut Ctx) {
         let l = l0.replace(&format!("hashed=(some {})", x.len()), "hashed=none");
         if hashed { if let Some(g) = &g { let xx = format!("xxh3:{:016x}", xxhash_rust::xxh3::xxh3_64(&x)); if g.hash.as_deref() != Some(xx.as_str()) { c.fail("C11", format!("hash {:?} != XXH3-64 of the file {} (replay with unknown events / large payloads)", g.hash, xx)); } } }
         if l != bl { c.fail("C08", format!("game differs from the one parsed without the tolerated irregularities: {} vs {}", &l[..l.len().min(200)], &bl[..bl.len().min(200)])); if what == 2 { c.fail("C17", "permuted frame body changes the parsed game"); } }
-        if let (Some(g), Some(bg)) = (&g, &bg) { if start_json(&g.start) != start_json(&bg.start) || end_json(&g.end) != end_json(&bg.end) || g.metadata != bg.metadata { c.fail("C08", "start/end/metadata differ from the regular parse"); } }
+        if let (Some(g), Some(bg)) = (&g, &bg) { if start_json(&g.start) != start_json(&bg.start) || end_json(&g.end) != end_json(&bg.end) || g.metadata != bg.metadata { c.fail("C08", "start/end/metadata differ from the regular parse"); }
+            if g.metadata != bg.metadata { c.fail("C16", "the metadata element read from a file with tolerated irregularities (unknown events, bytes after Game End) differs from the one read without them"); } }
+        // bytes after Game End sit right in front of the metadata element: a reader that loses its place there loses the metadata
+        if g.is_none() && bg.is_some() && !junk.is_empty() { c.fail("C16", format!("the metadata element behind {} bytes after Game End is not reached: {}", junk.len(), &l0[..l0.len().min(100)])); }
         // the history-based frame oracle (spec offsets, presence, rows per frame) holds of the irregular file as of the regular one
         if let Some(g) = &g { check_frames(&r, g, &mut c); }
         ctx.push(c);
@@ -538,6 +541,23 @@ fn inc(rng: &mut Rng, ctx: &mut Ctx) {
             tags.push("embedded".into()); }
         let mut c = Case::new(format!("inc {}", hex(&b)), line); c.oracle = fails; tags.push(format!("plan:{}", pname)); c.tags = tags;
         ctx.push(c);
+        // the incremental API on a stream that ends inside the raw element: every call that returns Ok has consumed exactly the bytes it was
+        // given (bytes_read == stream position), and no Game End is reported unless its whole payload was there
+        if k % 2 == 1 && b.len() > 40 { let raw_end = 15 + u32::from_be_bytes([b[11], b[12], b[13], b[14]]) as usize;
+            // cuts: inside the last Game End payload (1 byte in, 1 byte short), and two random positions inside the raw element
+            let elen = r.end.as_ref().map_or(0, |e| e.len()); let mut cuts = vec![15 + (rng.next() as usize) % (raw_end - 15).max(1), 15 + (rng.next() as usize) % (raw_end - 15).max(1)];
+            if r.end.is_some() && !r.double_end && elen >= 2 { cuts.push(raw_end - elen + 1); cuts.push(raw_end - 1); }
+            for cut in cuts { if cut >= raw_end || cut <= 16 { continue; }
+                let data = b[..cut].to_vec(); let mut fails: Vec<(String, String)> = vec![];
+                let res = std::panic::catch_unwind(std::panic::AssertUnwindSafe(|| -> Result<String, String> {
+                    let mut src = Chunked::new(data.clone(), vec![7, 64, 1], None);
+                    slippi::de::parse_header(&mut src, None).map_err(|e| format!("err {}", e))?;
+                    let mut st = slippi::de::parse_start(&mut src, None).map_err(|e| format!("err {}", e))?;
+                    loop { let code = slippi::de::parse_event(&mut src, &mut st, None).map_err(|e| format!("err {}", e))?;
+                        if st.bytes_read() != src.pos - 15 { fails.push(("C12".into(), format!("stream cut at {}: after event {:#x} bytes_read {} != bytes delivered {}", cut, code, st.bytes_read(), src.pos - 15))); return Ok("ok overcount".into()); }
+                        if code == 0x39 { fails.push(("C12".into(), format!("stream cut at {} (inside the raw element of {} bytes): the incremental API reports Game End", cut, raw_end - 15))); fails.push(("C07".into(), "incremental API reports a finished game on a truncated stream".into())); return Ok("ok gameend".into()); } } }));
+                let line = match res { Err(_) => { fails.push(("C06".into(), "incremental API panicked on a truncated stream".into())); "panic".to_string() } Ok(Err(_)) => "err".to_string(), Ok(Ok(s)) => s };
+                let mut c = Case::new(format!("inccut {} {}", cut, hex(&b)), line); c.oracle = fails; c.tags = vec!["inc-cut".into()]; ctx.push(c); } }
     }
 }
 
@@ -621,6 +641,7 @@ fn norm(rng: &mut Rng, ctx: &mut Ctx) {
     let decode_field = |f: &[u8]| -> Option<Option<String>> { std::panic::catch_unwind(|| MeleeString::try_from(f).ok().map(|m| m.0)).ok() };
     let mut fields: Vec<Vec<u8>> = vec![];
     for b0 in 0..=255u8 { fields.push(vec![b0]); fields.push(vec![b'A', b0, 0, b0, b0]); }
+    for bom in [&[0xffu8, 0xfe][..], &[0xfe, 0xff], &[0xef, 0xbb, 0xbf]] { for tail in [&b""[..], b"A0", b"AB\0x", &[0x41, 0x30, 0x42, 0x30]] { let mut f = bom.to_vec(); f.extend_from_slice(tail); fields.push(f); } }
     let pairs = if ctx.thorough { 65536 } else { 1500 };
     for i in 0..pairs { let (a, b) = if ctx.thorough { ((i >> 8) as u8, i as u8) } else { ((rng.next() >> 8) as u8 | 0x80, (rng.next() >> 8) as u8) }; fields.push(vec![a, b]); }
     for pos in 0..16 { let mut f = vec![b'x'; 16]; f[pos] = 0; for j in pos + 1..16 { f[j] = (rng.next() >> 8) as u8; } fields.push(f); }
